@@ -95,6 +95,12 @@ type SpecFunc struct {
 	Params []string // sorts (spec-level type names)
 	PNames []string
 	Result string
+	// Body (optional): a (possibly recursive) definition. The function stays
+	// uninterpreted for the solver; every occurrence f(args) in a contract clause
+	// contributes the ground instance  f(args) = Body[args]  (one level: occurrences
+	// inside that instance are not unfolded again).
+	Body *SExpr
+	Pkg  string
 }
 
 type Define struct {
@@ -358,12 +364,20 @@ func (cs *ContractSet) LoadFile(path, pkg string, trusted bool) {
 			}
 		case "spec":
 			// spec func name(a Sort, b Sort) Sort
-			m := regexp.MustCompile(`^func\s+(\w+)\s*\(([^)]*)\)\s*(.+)$`).FindStringSubmatch(rest)
+			m := regexp.MustCompile(`^func\s+(\w+)\s*\(([^)]*)\)\s*([^=]+?)(?:\s*=\s*(.+))?$`).FindStringSubmatch(rest)
 			if m == nil {
 				errf(l.line, "bad spec func")
 				continue
 			}
-			sf := &SpecFunc{Name: m[1], Result: strings.TrimSpace(m[3])}
+			sf := &SpecFunc{Name: m[1], Result: strings.TrimSpace(m[3]), Pkg: pkg}
+			if m[4] != "" {
+				e, err := ParseSpec(m[4])
+				if err != nil {
+					errf(l.line, "spec func %s: %v", sf.Name, err)
+					continue
+				}
+				sf.Body = e
+			}
 			for _, p := range splitCommaTop(m[2]) {
 				p = strings.TrimSpace(p)
 				if p == "" {
